@@ -492,7 +492,10 @@ def _parse_string_literal(literal: str) -> _expression.String:
                 if s not in "0123456789abcdef":
                     raise DSDLSyntaxError("Invalid hex character: %r" % s)
                 h += s
-            return chr(int(h, 16))
+            try:
+                return chr(int(h, 16))
+            except (ValueError, OverflowError):
+                raise DSDLSyntaxError("Invalid Unicode code point: %r" % h) from None
 
         try:
             return {
